@@ -293,7 +293,7 @@ class Analyzer:
             return
         body = info["body"]
         var = hirq.show_pat(info["pat"])
-        full = self.full_range(nf.nf(it), fn)
+        full = self.full_range(nf.nf(it, True, res=_R(fn)), fn)
         cands = []
         if body["k"] == "Block":
             seen_use = set()
@@ -356,20 +356,33 @@ def _norm(s, aliases):
     return s
 
 
-def _const_closure(cl):
+def _const_closure(cl, R=None):
     """closure |_| c  -> nf(c) if the body does not use the parameter"""
     params = [hirq.show_pat(p) for p in cl["params"]]
-    body = nf.nf(cl["body"], casts=True)
+    body = nf.nf(cl["body"], casts=True, res=R)
     for p in params:
         if p != "_" and re.search(r"\b%s\b" % re.escape(p), body):
             return None
     return body.strip("{}")
 
 
+def _R(fn):
+    from .rulelib import resolver_of
+    return resolver_of(fn)
+
+
+def _is_builder_local(fn, name):
+    """a local built by with_capacity + pushes must not be inlined by the resolver"""
+    from .rulelib import def_exprs
+    ds = def_exprs(fn, name)
+    return len(ds) == 1 and nf.strip(ds[0])["k"] == "Call" and short(nf.strip(ds[0]).get("callee", "")) == "with_capacity"
+
+
 def spec_of_expr(e, fn, aliases, depth=0):
     """InitSpec of an initialiser expression, resolving single-definition locals"""
     e = nf.strip(e)
     k = e["k"]
+    R = _R(fn)
     if k == "Path" and "local" in e["res"] and depth < 4:
         name = e["res"]["name"]
         return spec_of_local(name, fn, aliases, depth + 1)
@@ -378,15 +391,15 @@ def spec_of_expr(e, fn, aliases, depth=0):
         if name == "collect":
             r = nf.strip(e["recv"])
             if r["k"] == "MethodCall" and r["name"] == "map" and len(r["args"]) == 1 and r["args"][0]["k"] == "Closure":
-                c = _const_closure(r["args"][0])
+                c = _const_closure(r["args"][0], R)
                 src = nf.strip(r["recv"])
                 while src["k"] == "MethodCall" and src["name"] in ("into_iter", "iter"):
                     src = nf.strip(src["recv"])
-                rng = nf.nf(src, casts=True)
+                rng = nf.nf(src, casts=True, res=R)
                 m = re.match(r"^std::ops::Range\{start:0, end:(.*)\}$", rng)
                 if c is not None and m:
                     return Spec("fill", _norm(c, aliases), _norm(m.group(1), aliases))
-            rng = nf.nf(r, casts=True)
+            rng = nf.nf(r, casts=True, res=R)
             m = re.match(r"^std::ops::Range\{start:0, end:(.*)\}$", rng)
             if m:
                 return Spec("iota", "", _norm(m.group(1), aliases))
@@ -396,15 +409,15 @@ def spec_of_expr(e, fn, aliases, depth=0):
         callee = e.get("callee", "")
         sc = short(callee)
         if sc == "from_elem" and len(e["args"]) == 2:
-            return Spec("fill", _norm(nf.nf(e["args"][0], casts=True), aliases), _norm(nf.nf(e["args"][1], casts=True), aliases))
+            return Spec("fill", _norm(nf.nf(e["args"][0], casts=True, res=R), aliases), _norm(nf.nf(e["args"][1], casts=True, res=R), aliases))
         if sc == "new" and not e["args"]:
             return Spec("empty", "", "")
         if sc in ("new", "default"):
             owner = callee.rsplit("::", 1)[0]
             owner = re.sub(r"::<.*$", "", owner)
-            return Spec("fresh", owner, ", ".join(_norm(nf.nf(a, casts=True), aliases) for a in e["args"]))
+            return Spec("fresh", owner, ", ".join(_norm(nf.nf(a, casts=True, res=R), aliases) for a in e["args"]))
     # scalar
-    return Spec("scalar", _norm(nf.nf(e, casts=True), aliases), "")
+    return Spec("scalar", _norm(nf.nf(e, casts=True, res=R), aliases), "")
 
 
 def spec_of_local(name, fn, aliases, depth):
@@ -425,9 +438,11 @@ def spec_of_local(name, fn, aliases, depth):
                     rng = nf.nf(fl[0]["iter"], casts=True)
                     m = re.match(r"^std::ops::Range\{start:0, end:(.*)\}$", rng)
                     var = hirq.show_pat(fl[0]["pat"])
-                    val = nf.nf(p["args"][0], casts=True)
+                    val = nf.nf(p["args"][0], casts=True, res=_R(fn))
+                    rng = nf.nf(fl[0]["iter"], casts=True, res=_R(fn))
+                    m = re.match(r"^std::ops::Range\{start:0, end:(.*)\}$", rng)
                     if m and not re.search(r"\b%s\b" % re.escape(var), val):
-                        sp = Spec("fill", _norm(_resolve_scalar(val, fn), aliases), _norm(m.group(1), aliases))
+                        sp = Spec("fill", _norm(val, aliases), _norm(m.group(1), aliases))
                         sp.overrides = _overrides(name, fn, aliases)
                         return sp
             return Spec("unknown", "with_capacity without a single full push loop", "")
@@ -457,7 +472,7 @@ def _overrides(name, fn, aliases):
         if n["k"] == "Assign":
             l = nf.strip(n["l"])
             if l["k"] == "Index" and nf.nf(l["base"]) == name:
-                out.append((_norm(nf.nf(l["idx"], casts=True), aliases), _norm(nf.nf(n["r"], casts=True), aliases)))
+                out.append((_norm(nf.nf(l["idx"], casts=True, res=_R(fn)), aliases), _norm(nf.nf(n["r"], casts=True, res=_R(fn)), aliases)))
     return out
 
 
@@ -482,7 +497,7 @@ def reset_specs(fn, aliases, nested_types):
     fls = for_loops(fn)
 
     def value(e):
-        return _norm(_resolve_scalar(nf.nf(e, casts=True), fn), aliases)
+        return _norm(nf.nf(e, casts=True, res=_R(fn)), aliases)
 
     def visit(stmt):
         if hirq.in_log_macro(stmt):
@@ -518,19 +533,19 @@ def reset_specs(fn, aliases, nested_types):
             if not fl:
                 return
             f = fl[0]
-            rng = nf.nf(f["iter"], casts=True)
+            rng = nf.nf(f["iter"], casts=True, res=_R(fn))
             m = re.match(r"^std::ops::Range\{start:0, end:(.*)\}$", rng)
             var = hirq.show_pat(f["pat"])
             b = f["body"]
             if not m or b["k"] != "Block":
                 return
-            size = _norm(_resolve_scalar(m.group(1), fn), aliases)
+            size = _norm(m.group(1), aliases)
             for st2 in b["stmts"] + ([b["expr"]] if "expr" in b else []):
                 if st2["k"] == "Assign":
                     kind, key, proj, idx = slicer.base_place(st2["l"])
                     l = nf.strip(st2["l"])
                     if kind == "self" and l["k"] == "Index" and nf.nf(l["idx"]) == var:
-                        v = nf.nf(st2["r"], casts=True)
+                        v = nf.nf(st2["r"], casts=True, res=_R(fn))
                         if v == var:
                             out[key] = Spec("iota", "", size)
                         elif not re.search(r"\b%s\b" % re.escape(var), v):
